@@ -81,6 +81,21 @@ def work(case):
                                 what="a message reports run %s of singleton pattern %s as active, but afterwards the instance holds "
                                      "%d runs of it" % (live[0]["id"], PL.patname(p["name"]),
                                                         len(dec.runs_from(PL.phname(ph), PL.patname(p["name"])))), detail=None)
+        if op[0] == "remote" and fail is None:
+            # the pattern's one logical run has completed or halted on a peer (a record this instance does not remember
+            # as finished, under the peer's identifier or this one's, at whatever position the peer's copy stood): the
+            # local copy goes, whatever its own position - otherwise the slot stays occupied and nothing can start
+            upd_ids = {str(r["id"]) for r in op[1]["upd"]}
+            for ph, p in singles:
+                fin = [r for kk in ("comp", "halt") for r in op[1][kk]
+                       if r["ph"] == ph and r["pat"] == p["name"] and str(r["id"]) not in remembered]
+                now_ids = [r.run_id for r in dec.runs_from(PL.phname(ph), PL.patname(p["name"]))]
+                kept = [i for i in before[(ph, p["name"])] if i in now_ids and i not in upd_ids]
+                if fin and kept and fail is None:
+                    fail = dict(signature="singleton-run-survives-remote-finish", step=k,
+                                what="a message reports the run of singleton pattern %s as finished (record %s at block %s), but "
+                                     "the local copy %s is still active afterwards: no new run can start"
+                                     % (PL.patname(p["name"]), fin[0]["id"], fin[0]["idx"], kept[0]), detail=None)
         for ph, p in singles:
             runs = dec.runs_from(PL.phname(ph), PL.patname(p["name"]))
             dead = [r for r in runs if r.is_halted() or r.is_complete()]
